@@ -157,6 +157,16 @@ def _stratum(name):
         return [u1(u2(x)) for x in D1 for u2 in u7 for u1 in u7]
     if name == "D3m":                 # binary(op(depth-1 term), atom) both orders
         return list(M.binary_over(D2u, A)) + list(M.binary_over(A, D2u))
+    if name == "F":                   # case-folding flags: w/case and w/nocase, alone, nested both ways and around submatches
+        a, b, ab = ("lit", "a"), ("lit", "b"), ("range", "a", "b")
+        cores = [a, ("lit", "ab"), ab, ("not", "a"), ("or", a, b), ("$", a), ("seq", a, b), ("*", a), ("or", ("lit", "ab"), ("lit", "b"))]
+        out = []
+        for x in cores:
+            for w in (lambda y: ("case", y), lambda y: ("nocase", y), lambda y: ("nocase", ("case", y)), lambda y: ("case", ("nocase", y)),
+                      lambda y: ("nocase", ("seq", ("case", y), y)), lambda y: ("seq", ("nocase", y), ("case", y)),
+                      lambda y: ("seq", b, ("case", ("$", y))), lambda y: ("nocase", ("or", ("case", y), b))):
+                out.append(w(x))
+        return out
     if name == "R":                   # repetition bounds: (** m n x) / (= k x) for every bound pair of a small grid, over atoms and over
         a, b = ("lit", "a"), ("lit", "b")    # bodies that hold submatches, alone and followed by a further submatch (numbering!)
         bodies = list(A) + [("$", a), ("$", ("or", a, b)), ("seq", ("$", a), b), ("->", "n", a), ("$", ("*", a)), ("?", ("$", a))]
@@ -197,10 +207,10 @@ def subjects_for(name):
 
 # (stratum, subject set, est. ms per pair) in simplest-first order.
 PLAN = {
-    "quick": [("A", "S4X", 0.5), ("D1", "S4X", 0.8), ("X", "X", 0.8), ("R", "S4X", 1.2), ("D2u", "S4X", 1.2), ("D2m", "S4X", 1.2)],
+    "quick": [("A", "S4X", 0.5), ("D1", "S4X", 0.8), ("X", "X", 0.8), ("R", "S4X", 1.2), ("F", "S4X", 1.2), ("D2u", "S4X", 1.2), ("D2m", "S4X", 1.2)],
     # NC first only so that its 4 one-SRE jobs (~100 s of compilation each) overlap with everything else;
     # D2f last: it is the largest block, so a deadline leaves a prefix of it.
-    "thorough": [("NC", "S2X", 1.0), ("A", "S4X", 0.5), ("D1", "S4X", 0.8), ("X", "X", 0.8), ("R", "S4X", 1.2), ("D2u", "S4X", 1.2), ("D2m", "S4X", 1.0),
+    "thorough": [("NC", "S2X", 1.0), ("A", "S4X", 0.5), ("D1", "S4X", 0.8), ("X", "X", 0.8), ("R", "S4X", 1.2), ("F", "S4X", 1.2), ("D2u", "S4X", 1.2), ("D2m", "S4X", 1.0),
                  ("A", "S56", 1.5), ("D1", "S56", 2.5), ("D2u", "S5", 2.5), ("D3u", "S4", 1.2), ("D2f", "S4", 1.0)],
 }
 BOTH = ("A", "D1", "X")          # strata for which regexp-matches? is evaluated next to regexp-matches
@@ -575,7 +585,7 @@ def main(tier):
     chk.rule = ("SRE strata, each enumerated completely: A = the 8 leaves \"a\" \"b\" any (/ \"ab\") (~ \"a\") \"\" bol eol; D1 = every unary "
                 "operator * + ? (= 2 x) (** 1 2 x) ($ x) (-> n x) (w/nocase x) over A and every binary operator (: x y) (or x y) "
                 "over AxA; D2u = unary(D1); D2m = binary(D1,A) u binary(A,D1); D2f = binary(D1,D1) [A+D1+D2u+D2m+D2f = all SREs "
-                "of depth <= 2]; D3u = u1(u2(D1)), u1,u2 any unary operator but (-> n x) (the depth-3 cap: operator chains over a depth-1 core); R = (** m n x) for 8 bound pairs and (= k x) for k in 0,1,3 over the leaves and 6 bodies holding submatches, alone and next to a further submatch; X = depth<=2 terms "
+                "of depth <= 2]; D3u = u1(u2(D1)), u1,u2 any unary operator but (-> n x) (the depth-3 cap: operator chains over a depth-1 core); R = (** m n x) for 8 bound pairs and (= k x) for k in 0,1,3 over the leaves and 6 bodies holding submatches, alone and next to a further submatch; F = w/case and w/nocase alone, nested both ways and around submatches over 9 cores; X = depth<=2 terms "
                 "mentioning e-acute / E-acute; NC = 4 slow-to-compile (w/nocase (or ..class..)) terms.  Subject sets, each "
                 "complete: S4 = all 121 strings of length <= 4 over {a,b,newline}; S5 / S56 = all of length 5 / 5..6; "
                 "S4X = S4 + 15 fixed strings with A, B, e-acute, E-acute; S2X, X = length <= 2 + the 15.  quick = "
